@@ -35,7 +35,7 @@ _env = None
 def env():
     global _env
     if _env is None:
-        _env = X.Env(custom={'mix': _c_mix, 'inner': _c_inner},
+        _env = X.Env(custom={'mix': _c_mix, 'inner': _c_inner, 'py_plain': _py_f, 'py_deriv': _py_f, 'py_both': _py_f},
                      tables={k: X.RefTable(*v) for k, v in TABLE_DATA.items()})
     return _env
 
